@@ -25,7 +25,7 @@ type unit struct {
 	ctype    int           // closer type 0 io.Closer, 1 func(ctx) error, 2 func() error, 3 func()
 	mode     int           // runner: 0 return at once, 1 return after delay, 2 block until cancelled
 	delay    time.Duration // time before returning (after cancellation for mode 2)
-	result   int           // 0 nil, 1 own error, 2 context.Canceled, 3 ctx.Err() (mode 2)
+	result   int           // 0 nil, 1 own error, 2 context.Canceled, 3 ctx.Err() (mode 2); closers: 5 context.Canceled, 6 wrapped Canceled
 	err      error
 	starts   int
 	started  uint64
@@ -46,7 +46,8 @@ func mkUnit(s *simrt.Sim, id int, closer bool) *unit {
 		u.ctype = s.Choose(4, "ctype")
 		u.mode = 1
 		u.delay = delays[s.Choose(len(delays), "cdelay")]
-		u.result = s.Choose(2, "cresult")
+		// a closer's error is reported whatever it is: also context.Canceled, bare or wrapped (only runners are filtered)
+		u.result = []int{0, 1, 0, 1, 5, 6}[s.Choose(6, "cresult")]
 		if u.ctype == 3 {
 			u.result = 0
 		}
@@ -97,8 +98,13 @@ func (u *unit) closerAny(s *simrt.Sim) any {
 		s.Sleep(u.delay)
 		u.returned = s.Stamp()
 		s.Logf("closer %d return", u.id)
-		if u.result == 1 {
+		switch u.result {
+		case 1:
 			return u.err
+		case 5:
+			return context.Canceled
+		case 6:
+			return fmt.Errorf("closer %d: %w", u.id, context.Canceled)
 		}
 		return nil
 	}
@@ -139,6 +145,12 @@ func expected(us []*unit) []string {
 	for _, u := range us {
 		if u.starts > 0 && u.result == 1 {
 			out = append(out, u.err.Error())
+		}
+		if u.starts > 0 && u.closer && u.result == 5 {
+			out = append(out, context.Canceled.Error())
+		}
+		if u.starts > 0 && u.closer && u.result == 6 {
+			out = append(out, fmt.Sprintf("closer %d: %s", u.id, context.Canceled.Error()))
 		}
 		// result 3 (ctx.Err()) is context.Canceled: dropped for runners
 	}
